@@ -853,6 +853,10 @@ class Frame(object):
                 obj.attrs[target.attr] = v
                 self.I.path.effects.append(("setattr", obj, target.attr, v))
                 return
+            if isinstance(obj, ClassInfo):
+                # class-level state: owned by the persistent-state rule (C06); no effect on this evaluation
+                self.I.path.effects.append(("class-store", obj.qualname, target.attr, v))
+                return
             self.unsupported(target, "attribute store on %r" % (obj,))
         if isinstance(target, ast.Subscript):
             obj = self.expr(target.value)
@@ -1226,6 +1230,8 @@ class Frame(object):
             raise RaiseSig(AExc("KeyError", [idx], {}))
         if isinstance(base, AMap):
             return map_getitem(self, base, idx)
+        if isinstance(base, AFeatList):
+            return Term("feature-of", base.rec.ident, idx if isinstance(idx, Term) else Term(repr(idx)))
         if isinstance(base, ACollection) and isinstance(idx, (int, Aff)):
             # one particular element of the input collection
             return base.make_elem()
